@@ -1,0 +1,14 @@
+//go:build verif
+
+// Contracts for the deductive verifier in /verif (govc); comments only.
+package scramblesuit
+
+//@ pred dhHsInv(hs) := hs != nil && hs.mac != nil && hs.mac.hsize == 32 && (hs.serverPublicKey != nil ==> len(hs.serverMark) == 16)
+
+//@ func (*ssDHClientHandshake).parseServerHandshake(hs, resp) (n, seed, err)
+//@   serves C15 C10
+//@   requires dhHsInv(hs) && hs.keypair != nil
+//@   modifies hs.serverPublicKey, hs.serverMark, hs.mac.*
+//@   ensures [C15:state_inv] dhHsInv(hs)
+//@   ensures [C15:consumed_le_received] err == nil ==> 224 <= n && n <= len(resp) && n <= 1532
+//@   ensures [C15:seed_len] err == nil ==> len(seed) == 32
